@@ -227,7 +227,9 @@ end State
 /-- sum of all balances, contract stakes and identity stakes (locked and replenished stake are parts of the stake) -/
 def afVal (f : AFunds) : Int := f.balance + (match f.contract with | some c => c.stake | none => 0)
 
-def total (s : State) : Int := s.afunds.sum afVal + s.ifunds.sum (·.stake)
+def ifVal (f : IFunds) : Int := f.stake
+
+def total (s : State) : Int := s.afunds.sum afVal + s.ifunds.sum ifVal
 
 /-- upgrade flags of `config.ConsensusConf` (`validation.SetAppConfig` / `chain.config`) -/
 structure Cfg where
